@@ -882,7 +882,7 @@ func (a *analysis) noteDirect(f *types.Func, class int) {
 
 // extend appends the fields selected by the index path idx starting at type t.
 func (c *fctx) extend(pr *pathRef, t types.Type, idx []int) *pathRef {
-	res := &pathRef{obj: pr.obj, segs: append([]seg(nil), pr.segs...), side: pr.side}
+	res := &pathRef{obj: pr.obj, segs: append([]seg(nil), pr.segs...), side: pr.side, aliasLen: pr.aliasLen}
 	cur := t
 	for _, i := range idx {
 		st, ok := deref(cur).Underlying().(*types.Struct)
@@ -908,7 +908,7 @@ func (c *fctx) resolve(e ast.Expr) *pathRef {
 			return nil
 		}
 		if al := c.aliases[obj]; al != nil {
-			return &pathRef{obj: al.obj, segs: append([]seg(nil), al.segs...)}
+			return &pathRef{obj: al.obj, segs: append([]seg(nil), al.segs...), aliasLen: len(al.segs)}
 		}
 
 		return &pathRef{obj: obj}
@@ -1020,6 +1020,10 @@ func (c *fctx) recordW(e ast.Expr, pr *pathRef, write, derefd bool) {
 	if pr == nil || len(pr.segs) == 0 || c.a.collecting {
 		return
 	}
+	if pr.aliasLen > 0 && len(pr.segs) == pr.aliasLen && !derefd {
+		// the local copy of the pointer itself
+		return
+	}
 	root, base, path := c.a.rootOf(pr)
 	if root == "" {
 		return
@@ -1036,7 +1040,7 @@ func (c *fctx) recordW(e ast.Expr, pr *pathRef, write, derefd bool) {
 	// reaching a field through pointer-typed fields loads those pointers
 	if !c.inPrefix {
 		k0 := len(pr.segs) - len(strings.Split(path, "."))
-		for k := k0; k < len(pr.segs)-1; k++ {
+		for k := max(k0, pr.aliasLen); k < len(pr.segs)-1; k++ {
 			if _, isPtr := types.Unalias(pr.segs[k].typ).(*types.Pointer); isPtr {
 				sub := &pathRef{obj: pr.obj, segs: pr.segs[:k+1]}
 				c.inPrefix = true
